@@ -132,7 +132,7 @@ func (w *c04World) warmRun(parentCache string, p int, touch bool) (ws.Outcome, s
 }
 
 func TestVerifC04(t *testing.T) {
-	res := vx.New("explicit-state BFS over histories of {toggle one of the workspace bits (target edit, dependency deprecation / purity / nilness facts, a deprecation three import levels down that leaves every build id unchanged, root and package staticcheck.conf, malformed conf), toggle a flag bit (-go, -tags, -checks, GOOS), touch all files} interleaved with runs of the real binary sharing one cache; a state is (point, canonical cache digest), merged when equal. Every warm run's problem set and exit status must equal the memoised cold run of the same point. Non-trivial = warm run that reused at least one cache entry of an earlier run at a different point.")
+	res := vx.New("explicit-state BFS over histories of {toggle one of the workspace bits (target edit, dependency deprecation / purity / nilness facts, a deprecation three import levels down that leaves every build id unchanged, root and package staticcheck.conf, malformed conf), toggle a flag bit (-go, -tags, -checks, GOOS, package pattern ./... vs ./top), touch all files} interleaved with runs of the real binary sharing one cache; a state is (point, canonical cache digest), merged when equal. Every warm run's problem set and exit status must equal the memoised cold run of the same point. Non-trivial = warm run that reused at least one cache entry of an earlier run at a different point.")
 	defer res.Write()
 	bin := os.Getenv("VERIF_BIN_STATICCHECK")
 	if bin == "" {
@@ -159,7 +159,7 @@ func TestVerifC04(t *testing.T) {
 		os.MkdirAll(d, 0o755)
 		w.dirs <- d
 	}
-	res.SetBudget(vx.Budget(150*time.Second, 35*time.Minute))
+	res.SetBudget(vx.Budget(300*time.Second, 35*time.Minute))
 
 	if _, raw, ok := vx.Replay(); ok {
 		var cs c04Case
@@ -188,7 +188,9 @@ func TestVerifC04(t *testing.T) {
 	}
 	depth := vx.Pick(3, 4)
 	allWS := (1<<ws.NumWSBits - 1) &^ ws.BadConf
-	starts := []int{0, allWS}
+	// third start: the first run names only ./top, so every other package enters the cache as a
+	// facts-only dependency before it is ever analysed as a root
+	starts := []int{0, allWS, allWS | ws.PatTop}
 
 	seen := map[string]bool{}
 	var frontier []*c04Node
@@ -220,33 +222,24 @@ func TestVerifC04(t *testing.T) {
 	}
 	res.Sample(map[string]any{"point": ws.Describe(allWS), "cold_output": w.cold[allWS].out.String()})
 
-	for level := 2; level <= depth && len(frontier) > 0; level++ {
-		type job struct {
-			parent *c04Node
-			step   c04Step
-		}
-		var jobs []job
-		for _, n := range frontier {
-			if !vx.Thorough() && len(n.c.Steps) > 0 && len(n.c.Steps[len(n.c.Steps)-1].Toggle) > 1 {
-				continue // quick tier: states reached by a double event are not expanded further
-			}
-			menu := single
-			if level == 2 || vx.Thorough() && level == 3 {
-				menu = append(append([]c04Step{}, single...), double...)
-			}
-			for _, st := range menu {
-				jobs = append(jobs, job{n, st})
-			}
-		}
+	type job struct {
+		parent *c04Node
+		step   c04Step
+	}
+	// process runs the jobs of one level (warm run on a copy of the parent's cache, compared with
+	// the memoised cold run of the same point) and returns the new states.
+	process := func(jobs []job, level int) []*c04Node {
 		var next []*c04Node
 		var nmu sync.Mutex
 		var wg sync.WaitGroup
+		done := 0
 		sem := make(chan struct{}, workers)
 		for _, j := range jobs {
 			if res.Expired() {
-				res.NotExhaustive(fmt.Sprintf("time budget reached at depth %d (%d of %d transitions of this level done)", level, len(next), len(jobs)))
+				res.NotExhaustive(fmt.Sprintf("time budget reached at depth %d (%d of %d transitions of this batch done)", level, done, len(jobs)))
 				break
 			}
+			done++
 			wg.Add(1)
 			sem <- struct{}{}
 			go func(j job) {
@@ -303,16 +296,64 @@ func TestVerifC04(t *testing.T) {
 			}(j)
 		}
 		wg.Wait()
+		sort.Slice(next, func(i, j int) bool { return next[i].c.key() < next[j].c.key() })
+		return next
+	}
+	for level := 2; level <= depth && len(frontier) > 0; level++ {
+		var jobs, leaves []job
+		for _, n := range frontier {
+			for _, st := range single {
+				jobs = append(jobs, job{n, st})
+			}
+			if level == 2 || vx.Thorough() && level == 3 {
+				for _, st := range double {
+					if vx.Thorough() {
+						jobs = append(jobs, job{n, st})
+					} else {
+						// quick tier: states reached by a double event are leaves; they are run
+						// after the single-event tree below this state has been started, so that a
+						// budget cut removes leaves first
+						leaves = append(leaves, job{n, st})
+					}
+				}
+			}
+		}
+		next := process(jobs, level)
+		res.Count(fmt.Sprintf("transitions_depth_%d", level), int64(len(jobs)))
+		if len(leaves) > 0 {
+			// the leaves need the parents' caches, which are deleted below: run the next level's
+			// single events first only when there is no next level
+			if level < depth {
+				var jobs2 []job
+				for _, n := range next {
+					for _, st := range single {
+						jobs2 = append(jobs2, job{n, st})
+					}
+				}
+				next2 := process(jobs2, level+1)
+				res.Count(fmt.Sprintf("transitions_depth_%d", level+1), int64(len(jobs2)))
+				for _, n := range next {
+					os.RemoveAll(n.cache)
+				}
+				next = next2
+				level++
+			}
+			for _, n := range process(leaves, 2) {
+				os.RemoveAll(n.cache)
+			}
+			res.Count("transitions_depth_2_double_event_leaves", int64(len(leaves)))
+		}
 		for _, n := range frontier {
 			os.RemoveAll(n.cache)
 		}
-		sort.Slice(next, func(i, j int) bool { return next[i].c.key() < next[j].c.key() })
 		frontier = next
-		res.Count(fmt.Sprintf("transitions_depth_%d", level), int64(len(jobs)))
+	}
+	for _, n := range frontier {
+		os.RemoveAll(n.cache)
 	}
 	res.Validated = res.Transitions
 	res.Count("distinct_points_run_cold", int64(len(w.cold)))
-	res.Bound = fmt.Sprintf("histories of <= %d runs from 2 start points; <= 2 events between the first two runs (thorough: also before the third), 1 event otherwise; quick: states reached by a double event are leaves", depth)
+	res.Bound = fmt.Sprintf("histories of <= %d runs from 3 start points; <= 2 events between the first two runs (thorough: also before the third), 1 event otherwise; quick: states reached by a double event are leaves", depth)
 	if res.Nontrivial == 0 {
 		res.Note("vacuous: no warm run reused a cache entry")
 		res.NotExhaustive("vacuous")
